@@ -30,6 +30,18 @@ Theorem C35_link_absolute_exists_or_dropped : forall root gida P o k R,
   end.
 Proof. exact stored_link_characterised. Qed.
 
+(* extendLinks: the absolute links of an imported file are rebased onto the importing board, and
+   underscores left over at the file's root keep climbing in the importing program *)
+Theorem C35_imported_absolute_link_rebased : forall I r Q,
+  kinds_ok Q = true -> extend_link (scope_of I) (r :: scope_tail Q) = Some (scope_of (I ++ Q)).
+Proof. exact imported_absolute_rebased. Qed.
+
+Theorem C35_imported_link_rebased : forall I r j rest,
+  (j <= length I)%nat -> not_us_head rest = true ->
+  extend_link (scope_of I) (r :: repeat us_seg j ++ rest)
+    = Some (scope_of (firstn (length I - j) I) ++ rest).
+Proof. exact imported_link_rebased. Qed.
+
 (* whatever is stored with a canonical shape names an existing board *)
 Theorem C35_stored_canonical_link_exists : forall root gida r i ps,
   s_unq r = true -> spells i ps -> Forall (fun p => is_kind (fst p) = true) ps ->
@@ -103,6 +115,8 @@ Proof. repeat split; try reflexivity; try (cbn; lia). apply nodup_strs_NoDup. re
 Print Assumptions C35_compile_link_resolves.
 Print Assumptions C35_link_absolute_exists_or_dropped.
 Print Assumptions C35_stored_canonical_link_exists.
+Print Assumptions C35_imported_absolute_link_rebased.
+Print Assumptions C35_imported_link_rebased.
 Print Assumptions C35_self_link_dropped.
 Print Assumptions C35_graph_ida_is_path_only_shallow.
 Print Assumptions C35_self_link_refuted_nested.
